@@ -1,6 +1,7 @@
 SPECIFICATION MCSpec
 CONSTANTS
   NumTys = {"i32", "u8", "f64"}
-  Families = {"operand-bool", "operand-str", "logic-int", "cond-nonbool", "arg-count", "arg-type", "field-unknown", "field-dup", "field-drop", "field-access-unknown", "field-type", "name-undeclared", "name-out-of-scope", "match-drop-arm", "match-after-default", "match-dup-arm", "neg-unsigned", "exit-forbidden", "assign-non-local", "redeclare", "recursive-type", "recursive-const", "elem-type", "return-type", "let-type", "assign-type", "fallthrough-after-loop", "match-rename-arm"}
+  Families = {"operand-bool", "operand-str", "logic-int", "cond-nonbool", "arg-count", "arg-type", "field-unknown", "field-dup", "field-drop", "field-access-unknown", "field-type", "name-undeclared", "name-out-of-scope", "match-drop-arm", "match-after-default", "match-dup-arm", "neg-unsigned", "exit-forbidden", "assign-non-local", "redeclare", "recursive-type", "recursive-const", "elem-type", "return-type", "let-type", "assign-type", "fallthrough-after-loop", "match-rename-arm", "name-sibling-scope", "recursive-member"}
+  MaxMembers = 2
 INVARIANTS SeedWellTyped MutantIllTyped Emit
 CHECK_DEADLOCK FALSE
